@@ -126,6 +126,7 @@ func (pool *BlockPool) makeRequestersRoutine() {
 		default:
 			// request for more blocks.
 			pool.makeNextRequester()
+			verifIdleRequesters(pool)
 		}
 	}
 }
